@@ -72,6 +72,15 @@ def pullSim (cfg : Cfg) (p : Sid) : Bool :=
 
 def pullB (cfg : Cfg) : Bool := (List.range cfg.n).all (fun p => cfg.pullSim p)
 
+/-- every pushed connection is the only one out of its simulator that writes its input key of its destination, and no
+simulator has cached connections (the hypotheses `hkey` / `hpull` of `C03.begin_push_refines_spec`, for all connections) -/
+def pushKeysSim (cfg : Cfg) (p : Sid) : Bool :=
+  (cfg.sim p).pulled.isEmpty &&
+  (cfg.sim p).push.all fun pe =>
+    ((cfg.sim p).push.filter (fun e => e.2.1 == pe.2.1 && (e.2.2.2.1 == pe.2.2.2.1 && e.2.2.2.2 == pe.2.2.2.2 && e.1.1 == pe.1.1))) == [pe]
+
+def pushKeysB (cfg : Cfg) : Bool := (List.range cfg.n).all (fun p => cfg.pushKeysSim p)
+
 /-- candidate ranking: length of the longest chain of zero-delay connections ending in a simulator
 (`n` rounds of relaxation; correct whenever the zero-delay connections are acyclic) -/
 def zeroRank (cfg : Cfg) : List Nat :=
